@@ -22,22 +22,79 @@ SHRINK_LISTS = [('bursts',)]
 EXPECTED_PROBES = ['tls', 'plain', 'burst_over_64k', 'many_frames_one_read',
                    'frame_spans_records', 'tls_pending_nonzero',
                    'ping_in_burst', 'message_1mib', 'tls_readahead',
-                   'burst_ends_with_empty_frame']
+                   'burst_ends_with_empty_frame', 'ctl_inside_unfinished_message',
+                   'threaded', 'pong_before_next_wait']
 ASSUMPTIONS = ['the "real loopback TCP and TLS runs" clause of the property '
                'is runtime observation of uncontrolled executions and is not '
                'part of this verdict (DESIGN.md section 10)']
 
 
+TSLOT = 3000
+
+
 def plan(tier):
     return [('seeded', 1200 if tier == 'quick' else 40000),
-            ('huge', 40 if tier == 'quick' else 1500)]
+            ('huge', 40 if tier == 'quick' else 1500),
+            ('threaded_sweep', len(TBASES) * TSLOT),
+            ('threaded_random', 400 if tier == 'quick' else 30000)]
+
+
+# ThreadSim family: a sender thread is in the middle of a (split) socket write
+# when the event loop receives a Ping; the automatic Pong must be on the wire
+# before the loop goes back to waiting.
+def _tb(n):
+    return {'op': 'send_binary', 'hex': ('T1-0-' + 'x' * n).encode().hex()}
+
+
+TBASES = [
+    {'name': 'pong_vs_sender', 'threads': [[_tb(3000)]], 'loop': ['ping']},
+    {'name': 'pong_vs_two_senders', 'threads': [[_tb(200)], [
+        {'op': 'send_text', 'text': 'T2-0-' + 'y' * 50}]], 'loop': ['ping']},
+    {'name': 'pong_and_text_vs_sender', 'threads': [[_tb(500), _tb(10)]],
+     'loop': ['text', 'ping']},
+]
+_TINFO = {}
+
+
+def _tinfo(b):
+    from . import _threads as T
+    if b not in _TINFO:
+        _TINFO[b] = T.default_steps(TBASES[b])
+    return _TINFO[b]
+
+
+def _threaded_case(family, i, rng, tier):
+    import copy
+    from . import _threads as T
+    if family == 'threaded_sweep':
+        b = i // TSLOT
+        n, nt = _tinfo(b)
+        slot = i % TSLOT
+        step, who = slot // (nt + 1), slot % (nt + 1)
+        if step < 1 or step > n:
+            return None
+        tid = who if who < nt else T.threadsim.CLOCK
+        case = copy.deepcopy(TBASES[b])
+        case['schedule'] = {'kind': 'preempt', 'points': [[step, tid]]}
+    else:
+        case = copy.deepcopy(TBASES[rng.randrange(len(TBASES))])
+        case['schedule'] = {'kind': 'random', 'seed': rng.getrandbits(32),
+                            'stay': rng.choice([0.5, 0.8, 0.95])} \
+            if rng.random() < 0.6 else \
+            {'kind': 'pct', 'seed': rng.getrandbits(32), 'd': rng.choice([1, 2]),
+             'horizon': 400}
+    case['threaded'] = True
+    return case
 
 
 def make_case(family, i, rng, tier):
+    if family.startswith('threaded'):
+        return _threaded_case(family, i, rng, tier)
     tls = rng.random() < 0.5
     bursts = []
     for _ in range(rng.choice([1, 2, 3])):
-        kind = rng.choice(['small_frames', 'small_frames', 'one_big', 'mixed'])
+        kind = rng.choice(['small_frames', 'small_frames', 'one_big', 'mixed',
+                           'split_msg'])
         b = {'kind': kind}
         if kind == 'small_frames':
             b['n'] = rng.choice([1, 2, 100, 100, 1000] +
@@ -48,6 +105,11 @@ def make_case(family, i, rng, tier):
                                     32768] + ([1 << 20] if family == 'huge'
                                               else []))
             b['frags'] = rng.choice([1, 1, 3])
+        elif kind == 'split_msg':
+            # first fragment(s) and a control frame now, the rest of the
+            # message only after the silence: the control frame must not wait
+            b['size'] = rng.choice([10, 300, 20000])
+            b['ctl'] = rng.choice(['ping', 'ping', 'pong'])
         else:
             b['n'] = rng.choice([10, 60])
             b['size'] = rng.choice([100, 3000, 17000])
@@ -79,6 +141,20 @@ def build(case):
         rng = random.Random(b['seed'])
         start = len(enc.stream)
         items = []
+        if b['kind'] == 'split_msg':
+            n = b['size']
+            payload = b'\xcd' * n
+            ST.emit(enc, 2, payload[:n // 2], fin=0)
+            ST.encode_items([{'kind': b.get('ctl', 'ping'),
+                              'hex': b'mid-message'.hex()}], enc)
+            burst_bounds.append((start, len(enc.stream)))
+            start2 = len(enc.stream)
+            ST.emit(enc, 0, payload[n // 2:], fin=1)
+            enc.expected.append(('binary', payload))
+            enc.expected_ends.append(len(enc.stream))
+            burst_bounds.append((start2, len(enc.stream)))
+            enc.probes['ctl_inside_unfinished_message'] += 1
+            continue
         if b['kind'] == 'small_frames':
             for k in range(b['n']):
                 items.append({'kind': 'binary', 'hex': (bytes([k % 251]) *
@@ -175,7 +251,63 @@ def build(case):
     return sc, enc, ST.reply_len(reply), burst_bounds
 
 
+def _execute_threaded(case):
+    from . import _threads as T
+    res = Result()
+    sc, tr, sched = T.run(case)
+    w = tr.world
+    res.stats.update(w.stats)
+    res.sim_us = w.now
+    res.digest = T.digest(tr, sched)
+    if sched.error is not None:
+        raise RuntimeError('ThreadSim harness error: %r' % (sched.error,))
+    base = case.get('name')
+    if tr.hang:
+        res.bad('C18/threaded/hang', tr.hang)
+    if tr.escaped:
+        res.bad('C18/threaded/escaped', '%s %s' % tr.escaped)
+    st = w.socks[-1]
+    wire = oracle.Wire(st)
+    pings = [e for e in tr.events if e.name == 'ping']
+    res.stats['probe:threaded'] += 1
+    if pings and not wire.incomplete:
+        e = pings[0]
+        polls = [o for o in w.ops if o[2] == 'poll' and o[0] > e.seq]
+        # end offset -> seq of the write that put that byte on the wire
+        ends = []
+        pos = 0
+        for seq, now, data in st.out:
+            pos += len(data)
+            ends.append((pos, seq, now))
+        pong = [f for f in wire.frames if f.opcode == peer.OP_PONG]
+        closing = any(f.opcode == peer.OP_CLOSE for f in wire.frames)
+        if not pong:
+            if not closing:
+                res.bad('C18/threaded/pong_missing',
+                        'Ping received at t=%d, no Pong written | %s' % (
+                            e.t, T.site_signature(sched)))
+        else:
+            wseq = next(sq for (p_, sq, _) in ends if p_ >= pong[0].end)
+            wnow = next(nw for (p_, _, nw) in ends if p_ >= pong[0].end)
+            if polls and wseq > polls[0][0]:
+                res.bad('C18/threaded/pong_after_next_wait',
+                        'the event loop went back to waiting (t=%d) before '
+                        'the Pong for the Ping of t=%d was written (t=%d) | '
+                        '%s' % (polls[0][1], e.t, wnow,
+                                T.site_signature(sched)))
+            else:
+                res.stats['probe:pong_before_next_wait'] += 1
+    res.nontrivial = bool(pings)
+    res.sig = 'thr|%s|%s' % (base, T.site_signature(sched))
+    res.sample = {'base': base, 'schedule': case.get('schedule'),
+                  'switch_sites': T.site_signature(sched),
+                  'wire': [f.summary()['op'] for f in wire.frames]}
+    return res
+
+
 def execute(case):
+    if case.get('threaded'):
+        return _execute_threaded(case)
     res = Result()
     sc, enc, rlen, bounds = build(case)
     tr = netsim.run(sc)
@@ -187,6 +319,9 @@ def execute(case):
     st = w.socks[-1]
     tag = 'tls' if case['tls'] else 'plain'
     res.stats['probe:' + tag] += 1
+    for k, v in enc.probes.items():
+        if k == 'ctl_inside_unfinished_message':
+            res.stats['probe:' + k] += v
     for k, m in oracle.trace_sanity(tr):
         if k in ('hang', 'escaped'):
             res.bad('C18/%s/%s' % (tag, k), m)
